@@ -54,5 +54,14 @@ for k in ("quick", "thorough"):
         r = dict(r); r["bounds"] = "destruction-exactly-once lemma shared with C11: " + r["bounds"]
         c04[k].append(r)
 json.dump(c04, open("C04.json", "w"), indent=1)
+# C05's "effects of a request are visible to every request sent after its reply" includes a clunk or remove answered
+# while another request still executes on the fid: the H04.busy workloads are part of C05
+c05 = json.load(open("C05.json"))
+for k in ("quick", "thorough"):
+    extra = [r for r in c04[k] if r["harness"] == "vxH04Busy" and r.get("preempt", 0) == 0]
+    for r in extra:
+        r = dict(r); r["bounds"] = "visibility lemma shared with C04: " + r["bounds"]
+        c05[k].append(r)
+json.dump(c05, open("C05.json", "w"), indent=1)
 PY
 echo props regenerated
